@@ -465,4 +465,70 @@ impl Status {
                 || old(self).decoder.dec(plain_payload({W}, {ENC})->Some_0) is None)''', ['C02', 'C07']),
          ])
     u.raw(TRACE.replace('/*STEP*/', STEP_TEXT), props=['C01', 'C07'])
+    # ---- the async API on top of poll_next: Streaming::message / Streaming::trailers ----
+    u.raw('''
+// A-future-04: (R24) awaiting `future::poll_fn(|cx| Pin::new(&mut *self).poll_next(cx))` is: poll_next is called (with some
+// context) until it answers Ready, and that answer is the value of the await.  Written out as a loop over the REAL poll_next, so
+// that what it returns is tied to poll_next's proved clauses: `driven(pre, x, post)` says there is a finite poll history
+// pre -> post in which every poll but the last was Pending and the last answered Ready(x).
+pub open spec fn driven<T, DEC: Decoder<Item = T, Error = Status>>(pre: Streaming<T, DEC>, x: Option<Result<T, Status>>, post: Streaming<T, DEC>) -> bool {
+    exists|ss: Seq<Streaming<T, DEC>>, rs: Seq<Poll<Option<Result<T, Status>>>>| #[trigger] dec_trace(ss, rs) && rs.len() >= 1 && ss[0] == pre && ss[rs.len() as int] == post
+        && rs[rs.len() - 1] == Poll::Ready(x) && forall|i: int| 0 <= i < rs.len() - 1 ==> #[trigger] rs[i] is Pending
+}
+impl Context {
+    #[verifier::external_body]
+    pub fn verif_some() -> (r: Context) { unimplemented!() }
+}
+impl<T, DEC: Decoder<Item = T, Error = Status>> Streaming<T, DEC> {
+    #[verifier::exec_allows_no_decreases_clause]
+    pub async fn verif_poll_until_ready(&mut self) -> (x: Option<Result<T, Status>>)
+        requires old(self).inner.wf()
+        ensures driven(*old(self), x, *final(self)), final(self).inner.wf()
+    {
+        let ghost mut ss = seq![*self];
+        let ghost mut rs = Seq::<Poll<Option<Result<T, Status>>>>::empty();
+        loop
+            invariant
+                self.inner.wf(), ss.len() == rs.len() + 1, ss[0] == *old(self), ss[rs.len() as int] == *self,
+                forall|i: int| 0 <= i < rs.len() ==> #[trigger] dec_step(ss[i], ss[i + 1], rs[i]),
+                forall|i: int| 0 <= i < rs.len() ==> #[trigger] rs[i] is Pending,
+        {
+            let ghost pre = *self;
+            let mut cx = Context::verif_some();
+            let r = self.poll_next(&mut cx);
+            proof {
+                assert(dec_step(pre, *self, r));
+                let ss2 = ss.push(*self); let rs2 = rs.push(r);
+                assert forall|i: int| 0 <= i < rs2.len() implies #[trigger] dec_step(ss2[i], ss2[i + 1], rs2[i]) by {
+                    if i < rs.len() { assert(ss2[i] == ss[i] && ss2[i + 1] == ss[i + 1] && rs2[i] == rs[i]); assert(dec_step(ss[i], ss[i + 1], rs[i])); }
+                }
+                ss = ss2; rs = rs2;
+            }
+            match r {
+                Poll::Ready(x) => {
+                    proof { assert(dec_trace(ss, rs)); }
+                    return x;
+                }
+                Poll::Pending => {}
+            }
+        }
+    }
+}
+''')
+    hdr2 = 'impl<T, DEC: Decoder<Item = T, Error = Status>> Streaming<T, DEC> {'
+    u.fn(D, 'message', within='impl<T> Streaming<T>', header=hdr2, close=False, props=['C01', 'C02', 'C07'],
+         body_edits=[lambda t: t.sub_code('R24', r'future::poll_fn\(\|cx\| Pin::new\(&mut \*self\)\.poll_next\(cx\)\)\.await', 'self.verif_poll_until_ready().await')],
+         requires=['old(self).inner.wf()'],
+         ensures=[Clause('A1_message_is_what_poll_next_answers_when_driven_to_readiness',
+                         'exists|x: Option<Result<T, Status>>| #[trigger] driven(*old(self), x, *final(self)) && r == (match x { Some(Ok(m)) => Ok::<Option<T>, Status>(Some(m)), Some(Err(e)) => Err::<Option<T>, Status>(e), None => Ok::<Option<T>, Status>(None) })'),
+                  Clause('A2_invariant_kept', 'final(self).inner.wf()')])
+    u.fn(D, 'trailers', within='impl<T> Streaming<T>', props=['C02'],
+         attrs=['#[verifier::exec_allows_no_decreases_clause]'],
+         requires=['old(self).inner.wf()'],
+         loops={0: dict(invariant=['self.inner.wf()', 'old(self).inner.trailers is None'])},
+         ensures=[Clause('TR1_cached_trailers_are_handed_out_without_touching_the_stream',
+                         'old(self).inner.trailers matches Some(t) ==> (r matches Ok(Some(m)) && m.headers@ == t@) && final(self).inner.trailers is None && final(self).inner.body == old(self).inner.body && final(self).inner.state == old(self).inner.state && final(self).inner.buf == old(self).inner.buf'),
+                  Clause('TR2_trailers_are_handed_out_once', 'r is Ok ==> final(self).inner.trailers is None'),
+                  Clause('TR3_invariant_kept', 'final(self).inner.wf()')])
+    u.close('}')
     return u
